@@ -365,7 +365,7 @@ def run(ctx, pid):
         bad1 = copy.deepcopy(traces[i])
         bad1[3]["post"]["cl"] += 1
         bad2 = copy.deepcopy(traces[i])
-        del bad2[2]
+        del bad2[1]                      # Start dropped: nothing after it is enabled
         traces += [bad1, bad2]
     tcfg = tlc.write_cfg(os.path.join(ctx.scratch, "trace.cfg"), init="TraceInit", next="TraceNext", constants=TRACE_CONSTS,
                          invariants=ALL_INV, constraints=["Progress"], postcondition="Done", deadlock=False)
